@@ -197,6 +197,12 @@ func (ex *Exec) ldT(st *PState, p Value) *Term {
 }
 
 func (ex *Exec) abstractCall(st *PState, fn *ssa.Function, full string, args []Value) (Value, bool) {
+	if fn.Signature.Recv() != nil && ex.vecDim(fn.Signature.Recv().Type()) > 0 {
+		if v, ok := ex.vecMethod(st, fn, args); ok {
+			return v, true
+		}
+		return nil, false // not summarised: inline (must be built from summarised operations)
+	}
 	s, ok := ex.recvAbstract(fn)
 	if !ok {
 		return ex.abstractFunc(st, fn, full, args)
